@@ -13,7 +13,7 @@ import subprocess
 import sys
 
 VERIF = os.path.dirname(os.path.dirname(os.path.abspath(__file__)))
-BUILD = os.path.join(VERIF, 'build')
+BUILD = os.environ.get('VERIF_BUILD_DIR') or os.path.join(VERIF, 'build')   # VERIF_BUILD_DIR: scratch build cache (bin/mutsurvey)
 HARNESS = os.path.join(VERIF, 'harness')
 
 
